@@ -15,11 +15,10 @@ Lemma main_roundtrip : forall fmt dims es,
 Proof.
   intros fmt dims es V D R. exists (built fmt dims es).
   destruct (built_format fmt dims es V D R) as [F Dm].
-  repeat split; try assumption.
-  - now apply build_ok.
-  - apply (roundtrip_In fmt dims es V D R).
-  - apply (roundtrip_In fmt dims es V D R).
-  - now apply roundtrip_NoDup.
+  split; [exact (build_ok fmt dims es V D R)|].
+  split; [exact (roundtrip_In fmt dims es V D R)|].
+  split; [exact (roundtrip_NoDup fmt dims es V D R)|].
+  split; assumption.
 Qed.
 
 Lemma built_ordering fmt dims es : ordering (built fmt dims es) = fordering fmt.
@@ -43,7 +42,8 @@ Proof.
   intros fmt dims es V D R I.
   destruct (main_roundtrip fmt dims es V D R) as (t & B & H1 & H2 & H3 & H4).
   exists t. rewrite (build_ok fmt dims es V D R) in B. inversion B; subst t.
-  rewrite to_dok_impl_involutive; [repeat split; try assumption; apply H1| |].
+  rewrite to_dok_impl_involutive;
+    [split; [exact (build_ok fmt dims es V D R)|]; split; [exact H1|]; split; [exact H2|]; split; assumption| |].
   - rewrite built_ordering. unfold valid_formatb in V. apply andb_true_iff in V. tauto.
   - now rewrite built_ordering.
 Qed.
@@ -86,12 +86,11 @@ Proof.
   pose proof (dok_in_range fmt dims es V D R) as Rd.
   exists (built fmt' dims (to_dok_spec (built fmt dims es))).
   destruct (built_format fmt' dims _ V' D' Rd) as [F Dm].
-  repeat split; try assumption.
-  - now apply to_format_ok.
-  - apply (to_format_content fmt fmt' dims es V V' D D' R).
-  - apply (to_format_content fmt fmt' dims es V V' D D' R).
-  - now apply roundtrip_NoDup.
-  - now apply built_wf.
+  split; [exact (to_format_ok fmt fmt' dims es V V' D D' R)|].
+  split; [exact (to_format_content fmt fmt' dims es V V' D D' R)|].
+  split; [exact (roundtrip_NoDup fmt' dims _ V' D' Rd)|].
+  split; [assumption|]. split; [assumption|].
+  exact (built_wf fmt' dims _ V' D' Rd).
 Qed.
 
 Lemma main_pickle : forall fmt dims es t,
@@ -100,4 +99,42 @@ Lemma main_pickle : forall fmt dims es t,
 Proof.
   intros fmt dims es t V D R B. rewrite (build_ok fmt dims es V D R) in B. inversion B; subst t.
   apply pickle_identity. now apply built_wf.
+Qed.
+
+(** to_format of ANY well-formed stored tensor (not only a constructed one, e.g. a kernel output
+    with a scratch value: [strict] arbitrary) *)
+Lemma main_to_format_general : forall strict (t : tensor Z) fmt',
+  wf_tensorb strict t = true -> valid_formatb fmt' = true ->
+  length (fordering fmt') = length (Storage.dims t) ->
+  exists t', to_format_spec fmt' t = Ok t'
+    /\ (forall c v, In (c, v) (to_dok_spec t') <-> In (c, v) (to_dok_spec t))
+    /\ NoDup (map fst (to_dok_spec t'))
+    /\ format_of t' = fmt' /\ Storage.dims t' = Storage.dims t /\ wf_tensorb true t' = true.
+Proof.
+  intros strict t fmt' W V' L.
+  pose proof (wf_tensorb_shape _ _ W) as (_ & _ & _ & Dm).
+  destruct (wf_entries 0 strict t W) as [ND HR].
+  assert (to_dok_spec t = filter nonzero (entries 0 t)) as Ed.
+  { unfold to_dok_spec, to_dok, items_spec. change (fun e : entry => negb (snd e =? 0)) with nonzero.
+    apply dict_of_NoDup. now apply NoDup_map_fst_filter. }
+  set (es := to_dok_spec t).
+  assert (NoDup (map fst es)) as NDes by (unfold es; rewrite Ed; now apply NoDup_map_fst_filter).
+  assert (all_in_rangeb (Storage.dims t) es = true) as R.
+  { unfold all_in_rangeb. apply forallb_forall. intros [c v] Hin. unfold es in Hin. rewrite Ed in Hin.
+    apply filter_In in Hin. destruct Hin as [Hin _]. apply in_rangeb_spec. cbn [fst]. exact (HR c v Hin). }
+  assert (dims_okb fmt' (Storage.dims t) = true) as D'.
+  { unfold dims_okb. apply andb_true_iff. split; [apply Nat.eqb_eq; lia|].
+    apply forallb_forall. intros d Hd. rewrite Forall_forall in Dm. specialize (Dm d Hd). lia. }
+  destruct (main_roundtrip fmt' (Storage.dims t) es V' D' R) as (t' & B & H1 & H2 & H3 & H4).
+  exists t'. unfold to_format_spec. rewrite from_dok_build. fold es.
+  split; [exact B|]. split.
+  - intros c v. rewrite H1. split.
+    + intros [-> Hz]. destruct (sum_at_nonzero_In _ _ Hz) as [w Hw].
+      now rewrite (sum_at_NoDup _ _ _ NDes Hw).
+    + intros Hin. rewrite (sum_at_NoDup _ _ _ NDes Hin). split; [reflexivity|].
+      unfold es in Hin. rewrite Ed in Hin. apply filter_In in Hin. destruct Hin as [_ Hz].
+      unfold nonzero in Hz. cbn [snd] in Hz. lia.
+  - split; [exact H2|]. split; [exact H3|]. split; [exact H4|].
+    rewrite (build_ok fmt' (Storage.dims t) es V' D' R) in B. inversion B; subst t'.
+    exact (built_wf fmt' (Storage.dims t) es V' D' R).
 Qed.
